@@ -80,6 +80,16 @@ Notation(e) ==
            Cardinality({a \in e[3] : a[1] = "elided"}),
            Cardinality({a \in e[3] : a[1] = "enc"}) >>
 
+(* tree_format_with_target: the lines of the elements whose digest is in the target set carry a
+   star; only visited elements have a line (tree mode skips nodes) *)
+RECURSIVE WalkDigests(_), WalkDigestsSeq(_)
+WalkDigestsSeq(q) == IF q = << >> THEN {} ELSE WalkDigests(Head(q)) \cup WalkDigestsSeq(Tail(q))
+WalkDigests(w) ==
+  CASE w[1] = "visit"  -> {w[2]} \cup WalkDigestsSeq(w[6])
+    [] w[1] = "seq"    -> WalkDigestsSeq(w[2])
+    [] w[1] = "sorted" -> UNION {WalkDigests(x[2]) : x \in w[2]}
+Highlighted(w, T) == IF T = {} THEN w ELSE <<"hl", w, <<"set", T \cap WalkDigests(w)>> >>
+
 (* elements_count: 1 + children, nothing below obscured elements (= Size) *)
 ElementsCount(e) == Size(e)
 
